@@ -64,7 +64,7 @@ func laplacianSerial(f func(x []float64) float64, x []float64, stencil []Point, 
 	fo := func() float64 {
 		// Copy x in case it is modified during the call.
 		copy(xCopy, x)
-		return f(x)
+		return f(xCopy)
 	}
 	is2 := 1 / (step * step)
 	origin := getOrigin(originKnown, originValue, fo, stencil)
